@@ -433,6 +433,13 @@ Walk:
 							return subNode, subTsr
 						}
 
+						if idx == 0 && current.params[paramKeyCnt].end != -1 {
+							// The remaining path starts with a slash: an infix catch-all never captures an empty segment,
+							// so there is neither a match nor a trailing slash opportunity down this branch.
+							tree.ctx.Put(subCtx)
+							break Walk
+						}
+
 						tree.ctx.Put(subCtx)
 
 						// We can record params here because it may be either an ending catch-all node (leaf=/foo/*{args}) with
